@@ -37,11 +37,21 @@ def field_domains(repo):
     val = repo.module('chython.periodictable.base.query').functions.get('_validate')
     if val is None:
         raise AnalysisError('query._validate vanished')
+    # the largest scalar the validator admits: evaluate the conditions under which its first range error is raised (any spelling of the test)
+    from .r_query import _ev, _Unknown
+    from .astutil import reach_conditions
     hi = None
+    par = val.params()[0]
     for n in ast.walk(val.node):
-        if isinstance(n, ast.Compare) and isinstance(n.ops[0], ast.Gt) and isinstance(n.comparators[0], ast.Constant) and \
-                isinstance(n.left, ast.Name):
-            hi = n.comparators[0].value
+        if isinstance(n, ast.Raise) and n.exc is not None and src(n.exc).startswith('ValueError') and 'range' in src(n.exc):
+            conds = reach_conditions(n, val.node)
+            try:
+                ok = [v for v in range(0, 64) if not all(_ev(c, {par: v}) for c in conds)]
+            except _Unknown:
+                break
+            if ok and len(ok) < 64:
+                hi = max(ok)
+            break
     if hi is None:
         raise AnalysisError('upper bound of query._validate not recognised')
     return {
@@ -208,17 +218,17 @@ def run_matcher_rules(ck, repo, thorough=False):
             m |= 1 << mpos[(f, v)][1]
         return m
     rad_t = rad_f = None
-    for s in a['m_sites']:
-        if s.kind == 'const' and len(bits_of(s.value)) == 1:
-            if ('a.is_radical', True) in s.path:
-                rad_t = s.value
-            elif ('a.is_radical', False) in s.path:
-                rad_f = s.value
-    unspec = None
-    for s in a['m_sites']:
-        if s.kind == 'const' and len(bits_of(s.value)) == 2:
-            hi_b = 1 << max(bits_of(s.value))
-            unspec = hi_b if unspec in (None, hi_b) else -1
+    iso_var = {s.var for s in a['m_sites'] if s.kind == 'shift' and s.field == 'isotope'}
+    w3 = [s for s in a['m_sites'] if s.kind == 'const' and s.var in iso_var and len(bits_of(s.value)) in (1, 2)]
+    for s in w3:  # the radical flag is the low bit of a constant written under a test of a.is_radical (alone or combined with the isotope flag)
+        if ('a.is_radical', True) in s.path:
+            rad_t = 1 << min(bits_of(s.value))
+        elif ('a.is_radical', False) in s.path:
+            rad_f = 1 << min(bits_of(s.value))
+    rest = set()
+    for s in w3:
+        rest |= {1 << b for b in bits_of(s.value)} - {rad_t, rad_f}
+    unspec = rest.pop() if len(rest) == 1 else None
     ck.require(rad_t and rad_f and unspec and unspec > 0, 'radical / isotope-unspecified constants of the molecule encoder not recognised')
     iso_lo = min(bits_of(rad_t) | bits_of(rad_f))
     iso_region = sum(1 << b for b in range(max(bits_of(rad_t) | bits_of(rad_f)) + 1, max(bits_of(unspec))))
